@@ -73,15 +73,18 @@ def dfs (G : MG) (T : List Nat) : Nat → Nat → List Nat → List (List Nat)
         (if T.any (fun t => decide (t ∉ nbr :: prev :: before)) then dfs G T (rem + 1) nbr (prev :: before)
          else [])
 
+/-- `if cutoff is None: cutoff = len(G) - 1` -/
+def cutoffOf (G : MG) : Option Nat → Nat
+  | none => G.nodes.length - 1
+  | some c => c
+
 /-- `all_semi_directed_paths(G, source, target, cutoff)` with `targets = T` (`{target}` for a node).
     `none` is returned for `NodeNotFound` (source not in `G`). -/
 def allSemiDirectedPaths (G : MG) (s : Nat) (T : List Nat) (cutoff : Option Nat) : Option (List (List Nat)) :=
   if s ∉ G.nodes then none
   else if s ∈ T then some []
   else
-    let c := match cutoff with
-      | none => G.nodes.length - 1
-      | some c => c
+    let c := cutoffOf G cutoff
     if c < 1 then some [] else some (dfs G T c s [])
 
 /-- `_possibly_directed(G, i, j, reverse)` as called by the BFS with `i` the current node and `j` a
